@@ -155,6 +155,12 @@ def wl_objects(ctx, rng, i):
             o[p["name"]] = [o[p["name"]][0], "other", o[p["name"]][0]]
         if p["name"] in o and p["k"] == "int" and p.get("min", 0) <= 0 and rng.random() < 0.3:
             o[p["name"]] = 0
+        if p["name"] == "labels" and p["name"] in o and rnd % 3 == 1:
+            o["labels"] = ["label-%d" % k for k in range(12)]          # two-digit indices
+    if rnd % 3 != 2:
+        # keys that are string prefixes of their siblings, in an order that is not string order; a two-digit index inside
+        o["x_headers"] = {"Accept": ["a", "b"], "Accept-Encoding": "gzip", "A": {"q": 1}, "A-1": 0,
+                          "list": [{"k": n} for n in range(11)]}
     try:
         with warnings.catch_warnings():
             warnings.simplefilter("ignore")
@@ -168,7 +174,7 @@ def wl_objects(ctx, rng, i):
     sels = [(s, segs, v) for s, segs, v in pathor.selectors(jd) if segs[0] != "granular_markings"]
     if ctx.tier == "quick" and len(sels) > 45:
         # keep all falsy/embedded/duplicate ones, sample the rest
-        special = [x for x in sels if classify_selector(jd, x[0]) != "valid-selector-refused"]
+        special = [x for x in sels if classify_selector(jd, x[0]) != "valid-selector-refused" or x[1][0] == "x_headers" or any(len(sg) > 3 and sg.startswith("[") for sg in x[1])]
         rest = [x for x in sels if x not in special]
         rng.shuffle(special)
         rng.shuffle(rest)
@@ -197,6 +203,33 @@ def wl_objects(ctx, rng, i):
                 ctx.violation("selector-addresses-nothing-accepted:" + kind,
                               "%s accepted selector %r which addresses nothing in a %s %s" % (name, s, ver, t),
                               {"version": ver, "entry_point": name, "selector": s, "near_miss": kind, "object": ji, "raised_instead": other})
+    # what a selector addresses is taken away by a new version: the new version is refused, not built with a selector that
+    # addresses nothing
+    if "modified" in jd and not jd.get("revoked"):
+        req = {p["name"] for p in tbl["props"] if p["required"]}
+        cands = [(s, segs) for s, segs, v in sels if segs[0] not in req and segs[0] in o and segs[0] not in ("type", "id", "created", "modified", "created_by_ref", "spec_version")]
+        rng.shuffle(cands)
+        for s, segs in cands[:3]:
+            withgm = dict(o)
+            withgm["granular_markings"] = [{"marking_ref": MARK, "selectors": [s]}]
+            try:
+                with warnings.catch_warnings():
+                    warnings.simplefilter("ignore")
+                    marked = stix2.parse(json.dumps(withgm), allow_custom=True)
+            except Exception:
+                continue
+            changes = [("property removed", {segs[0]: None})]
+            cur = jd.get(segs[0])
+            if len(segs) >= 2 and segs[1].startswith("[") and isinstance(cur, list) and int(segs[1][1:-1]) == len(cur) - 1 and len(cur) > 1:
+                changes.append(("list shortened", {segs[0]: cur[:-1]}))
+            for label, ch in changes:
+                res, other = outcome(lambda: marked.new_version(**ch), True)
+                ctx.ev()
+                ctx.count("new_version_decisions")
+                ctx.nontrivial(ver, t, "new-version:" + label, shape(segs))
+                if res != "refused":
+                    ctx.violation("selector-addresses-nothing-accepted:after-new-version", "new_version(%s) built a %s %s that keeps selector %r although it now addresses nothing" % (
+                        label, ver, t, s), {"version": ver, "selector": s, "change": label, "object": jd})
     # selector *lists*: every member must address something, wherever it stands in the list
     valid = [s for s, _, _ in sels]
     misses = [".".join(segs) for _, segs in near_misses(rng, jd, ji, tbl)]
